@@ -58,6 +58,7 @@ ITEMS = [
     Type(LIT, 'enum Literal'),
     Type(VALUE, 'enum ValueKind'),
     Type(VALUE, 'struct Value'),
+    Type('cedar-policy-core/src/ast/types.rs', 'enum Type'),
     Type(OPS, 'enum UnaryOp', attrs=DERIVE),
     Type(OPS, 'enum BinaryOp', attrs=DERIVE),
     Type(ERR, 'enum EvaluationError', rewrites=[(r'evaluation_errors::', '', None)]),
